@@ -298,6 +298,21 @@ func (c *Ctx) sortedBeforeSinkRule(fname string) {
 				if o := objOf(d.pkg, s.Args[0]); isSlice(o) {
 					events[o] = append(events[o], &ev{pos: s.Pos(), kind: "sort", what: full})
 				}
+				// a hand-written comparator has to be an order, or "sorted" means nothing
+				if len(s.Args) == 2 {
+					if lit, isLit := s.Args[1].(*ast.FuncLit); isLit {
+						verdict, why := comparatorVerdict(d, lit, strings.HasPrefix(full, "slices."))
+						construct := fmt.Sprintf("%s#%s(%s)", fname, f.Name(), normText(types.ExprString(s.Args[0])))
+						switch verdict {
+						case "order":
+							c.ok("comparator-is-an-order", construct, c.P.Pos(lit.Pos()), "strict comparison / lexicographic chain")
+						case "invalid":
+							c.bad("comparator-is-an-order", construct, c.P.Pos(lit.Pos()), "the comparator is not a strict weak order: "+why+"; the encoding of an unchanged value then varies with map iteration order, so Equal is not reflexive and Checksum not stable")
+						default:
+							c.undecided("comparator-is-an-order", construct, c.P.Pos(lit.Pos()), why)
+						}
+					}
+				}
 			case "strings.Join":
 				if o := objOf(d.pkg, s.Args[0]); isSlice(o) {
 					events[o] = append(events[o], &ev{pos: s.Pos(), kind: "sink", what: full})
@@ -544,6 +559,39 @@ func (c *Ctx) kernelRule(fname string) {
 		_ = facts
 		c.check(isConst && v.c.ExactString() == "false", R, fname+"#early-return", c.P.Pos(rs.Pos()),
 			"early return is the constant false", "an early return yields something other than false: equality is no longer decided by the encoder alone")
+		// … and only because an operand is absent: any other early "not equal" is a second, unrelated
+		// notion of equality (a size, a count, a single field) that can disagree with the encoder
+		chain := enclosing(d.fd.Body, rs)
+		for i, en := range chain {
+			ifs, isIf := en.(*ast.IfStmt)
+			if !isIf || i+1 >= len(chain) || chain[i+1] != ast.Node(ifs.Body) {
+				continue
+			}
+			onlyNil := true
+			var walk func(e ast.Expr)
+			walk = func(e ast.Expr) {
+				switch x := e.(type) {
+				case *ast.ParenExpr:
+					walk(x.X)
+					return
+				case *ast.BinaryExpr:
+					if x.Op == token.LOR {
+						walk(x.X)
+						walk(x.Y)
+						return
+					}
+					if x.Op == token.EQL && isNilIdent(d.pkg, x.Y) {
+						if o := objOf(d.pkg, x.X); o != nil && (o == par || o == recv) {
+							return
+						}
+					}
+				}
+				onlyNil = false
+			}
+			walk(ifs.Cond)
+			c.check(onlyNil, R, fname+"#early-return-condition", c.P.Pos(ifs.Pos()), "early false only for an absent operand",
+				fmt.Sprintf("an early `return false` is taken under `%s`, which is not a nil test of an operand: two values with the same encoding (and the same checksum) can be reported unequal", types.ExprString(ifs.Cond)))
+		}
 		return true
 	})
 }
